@@ -147,4 +147,20 @@ theorem check_simple {cfg : Cfg} (hcfg : cfg.OK = true) (g : Graph) (nodes c : L
     (h : check cfg g nodes = .cyc c d) : c.Nodup :=
   checkFrom_simple hcfg g _ nodes ⟨[], []⟩ rfl c d h
 
+/-! ### sequences of checks on one detector -/
+
+/-- When nothing persists in the detector, every call of a sequence is exactly a fresh `check` of the graph given to
+that call — whatever the earlier calls saw. -/
+theorem runSeq_stateless (cfg : Cfg) : ∀ (calls : List (Graph × List Nat)) (st : DetState),
+    runSeq cfg Persist.none st calls = calls.map fun c => check cfg c.1 c.2 := by
+  intro calls
+  induction calls with
+  | nil => intro st; rfl
+  | cons c rest ih =>
+    intro st
+    obtain ⟨g, nodes⟩ := c
+    simp only [runSeq, List.map_cons]
+    rw [ih]
+    rfl
+
 end PlzVerif.Cycle
